@@ -190,6 +190,9 @@ FINDINGS = [
             {NONROOT, CRASH}, {"*": W(2, "flat", "b 0 0 1 int sum")},
             "every rank accumulates into its rbuf, which MPI makes significant only at the root: the caller's buffer is "
             "overwritten on the other ranks, SIGSEGV when it is NULL there"),
+    Finding("reduce/mvapich2_two_level", "single-host:MPI_IN_PLACE:root!=0:crash", P("mode == 'ip' and c > 0 and N == 1 and root != 0"),
+            {CRASH}, W(2, "blk2", "ip 1 0 1 int sum"),
+            "when all the ranks are on one host and the root is not rank 0, MPI_IN_PLACE at the root is dereferenced (SIGSEGV)"),
     Finding("reduce/scatter_gather", "nonroot-recvbuf-used-as-scratch", P("np > 1 and c > 0 and mode in ('b', 'ip')"), {NONROOT},
             W(2, "flat", "b 0 0 1 int sum"),
             "a temporary buffer is only allocated when recvbuf is NULL; a non-NULL recvbuf of a non-root rank is overwritten"),
@@ -201,9 +204,10 @@ FINDINGS = [
             "with num_core == 1 to_inter == to_intra: every leader sends the message twice and the last one sends it back to "
             "rank 0; the unmatched messages are received by the next bcast (wrong data, truncation) or hit a finished rank"),
     Finding("bcast/SMP_binomial bcast/mpich", "ranks-per-host-not-power-of-two:message-to-a-rank-of-the-next-host",
-            P("K > 1 and (K & (K - 1)) != 0 and M > 2"), {CRASH, DEAD, WRONG, STRAY, ERR}, W(9, "blk3", "b 0 0 1 int none"),
-            "with 3 ranks per host on 3 hosts or more, bcast__SMP_binomial (used by the mpich selector on SMP placements) "
-            "sends a message to a rank that never receives it (abort: 'trying to send data to rank 6, which is not to be found')"),
+            P("K > 1 and (K & (K - 1)) != 0"), {CRASH, DEAD, WRONG, STRAY, ERR}, W(9, "blk3", "b 0 0 1 int none"),
+            "with 3 ranks per host bcast__SMP_binomial (used by the mpich selector on SMP placements) sends messages to ranks "
+            "that never receive them (abort 'trying to send data to rank 6, which is not to be found', or a crash when the "
+            "simulation ends with these messages pending)"),
     Finding("bcast/arrival_scatter", "count<np:fallback-calls-itself:crash", P("(c < np or lay == 'rev') and np > 1"), {CRASH},
             W(2, "flat", "b 0 0 1 int none"),
             "for count < size the algorithm calls colls::bcast, i.e. itself when it is the selected algorithm: unbounded recursion "
@@ -253,7 +257,7 @@ FINDINGS = [
             "on a communicator whose ranks are not in actor-id order (e.g. MPI_Comm_split with descending keys) the two-level "
             "algorithms deliver the blocks in actor-id order instead of rank order", crash=False),
     # ---------------------------------------------------------------------------------------------------- gather -------
-    Finding("gather/mvapich2_two_level", "leader_comm_rank=leader_comm->size():crash", P("1 < N < np and c > 0 and (not uniform or not rootleader)"),
+    Finding("gather/mvapich2_two_level", "leader_comm_rank=leader_comm->size():crash", P("N < np and c > 0 and (not uniform or not rootleader)"),
             {CRASH, DEAD, WRONG}, W(4, "blk2", "b 1 0 1 int none"),
             "gather-mvapich.cpp sets leader_comm_rank = leader_comm->size() (typo for ->rank()): the branches for a root that "
             "is not a node leader and for hosts with different numbers of ranks never find the leader of the root (SIGSEGV)"),
@@ -302,8 +306,10 @@ FINDINGS = [
             "throws 'can't be used with non power of two number of processes'", via="alltoall/pair"),
     Finding("reduce/mvapich2", "np>=16:consecutive-reduces-interfere", P("np >= 16"), {CRASH, DEAD, WRONG, ERR, STRAY, NONROOT},
             W(17, "flat", "b 0 0 4097 vec user", "b 0 0 1 int sum"),
-            "with 16 ranks or more two consecutive MPI_Reduce calls interfere: a message of the second call is received by the "
-            "first one (wrong result, MPI_ERR_TRUNCATE/MPI_ERR_TYPE abort or deadlock); each call alone is right", crash=False),
+            "two consecutive MPI_Reduce calls of different sizes interfere (wrong result, MPI_ERR_TRUNCATE/MPI_ERR_TYPE abort or "
+            "deadlock; each call alone is right): reduce__mvapich2 stores the functions chosen for a call in the process-global "
+            "pointers MV2_Reduce_function / MV2_Reduce_intra_function, which all simulated ranks share; a rank that already "
+            "entered the next reduce overwrites them while others still read them in the two-level helper", crash=False),
     Finding("allreduce/impi", "dt=holes:selects-rab1:stray-write", P("holes and c > 0 and np > 1 and pow2"), {STRAY},
             W(8, "blk4", "ip 0 0 4099 vec user"), "the Intel table selects allreduce__rab1, which copies whole extents over the "
             "holes of a derived datatype", via="allreduce/rab1"),
